@@ -89,6 +89,29 @@ def enumerate_cases(tier):
         if k % step:
             continue
         yield skeleton(hdr, fn, src, strat, pt, pf, ps, pbh)
+    # column names that the library (or polars) may use for bookkeeping columns of its own; paper no larger than the default margins
+    reserved = ["page", "row_index", "index", "data_rows", "total_rows", "literal", "value", "column", "len", "count", "group", "key", "__NULL__",
+                "is_group_start", "page_by", "subline_by", "new_page", "rn", "idx", "tmp", "_group_key", "column_0", "", " "]
+    for name in reserved:
+        for strat in ("plain", "page_by", "subline", "group_by"):
+            rec = skeleton("default", None, None, strat, "all", "last", "last", True)
+            rec["sections"][0]["df"]["cols"][1]["name"] = name        # a displayed data column
+            rec["page"] = dict(rec.get("page") or {}, nrow=4)
+            yield rec
+            rec = skeleton("default", None, None, strat, "all", "last", "last", True)
+            if strat != "plain":
+                old = rec["sections"][0]["df"]["cols"][0]["name"]
+                rec["sections"][0]["df"]["cols"][0]["name"] = name    # the grouping column itself
+                for key in ("page_by", "subline_by", "group_by"):
+                    if rec["sections"][0]["body"].get(key) == [old]:
+                        rec["sections"][0]["body"][key] = [name]
+                yield rec
+    for w, h, orient in ((5, 3, "portrait"), (6, 3, "landscape"), (3, 3, "portrait"), (2.3, 11, "portrait"), (8.5, 2, "portrait"), (2.5, 1, "portrait"),
+                         (11, 2.5, "landscape"), (3.25, 3.25, "landscape")):
+        for strat in ("plain", "page_by", "subline"):
+            rec = skeleton("default", True, None, strat, "all", "last", "last", True)
+            rec["page"] = dict(rec.get("page") or {}, width=w, height=h, orientation=orient)
+            yield rec
 
 
 def skeleton(hdr, fn, src, strat, pt, pf, ps, pbh):
